@@ -200,46 +200,6 @@ def named_origin_rule(run, fr, appends):
               'close_connection() keeps the latched origin: the next client\'s first request is compared with its predecessor\'s origin and refused', 'the latch is cleared on every path of close_connection()')
 
 
-def read_has_room_rule(run, fn_names):
-    """A read into `sizeof(buf) - n` bytes completes immediately with 0 bytes once n == sizeof(buf): with a request head that
-    fills the buffer without its terminator the handler re-issues the zero-length read forever at one virtual instant and
-    simulation::run() never returns.  Every such read is dominated by a test that the buffer still has room."""
-    fx = run.fx
-    n = 0
-    for name in fn_names:
-        g = fx.fn1(name)
-        run.touch(g)
-        for c in g.calls():
-            if not (q.callee_name(c) or '').split('<')[0].endswith('async_read_some'):
-                continue
-            txt = q.render(g, c)
-            bufc = [x for x in walk(c) if x['k'] == 'call' and (q.callee_name(x) or '').split('<')[0].endswith('::buffer') and len(x.get('args', [])) == 2]
-            for b in bufc:
-                size = q.strip_casts(b['args'][1])
-                if not (is_node(size) and size['k'] == 'bin' and size['op'] == '-'):
-                    continue
-                cap, used = q.render(g, q.strip_casts(size['lhs'])), q.render(g, q.strip_casts(size['rhs']))
-                n += 1
-                room = False
-                for at, pol in q.guards_at(g, c):
-                    cm = q.cmp_atom(at)
-                    if not cm:
-                        continue
-                    op, l, r = cm[0], q.render(g, q.strip_casts(cm[1])), q.render(g, q.strip_casts(cm[2]))
-                    strip = lambda t_: t_.replace('int(', '').replace('std::size_t(', '').replace('size_t(', '').rstrip(')') if t_.count('(') > t_.count(')') - 1 and ('int(' in t_ or 'size_t(' in t_) else t_
-                    l, r = strip(l), strip(r)
-                    if not pol:
-                        op = q.NEG[op]
-                    if l == cap.replace('int(', '') or cap in l:
-                        op, l, r = q.SWAP[op], r, l
-                    if l == used and (cap in r or r in cap) and op == '<':
-                        room = True
-                run.check(room, 'R11', 'read-has-room', '%s: read into %s - %s' % (g.norm, cap[:40], used), g.loc(c),
-                          'the read into the rest of the buffer (%s - %s bytes) is issued without a dominating test that any room is left: a request head that fills the buffer without its terminating empty line makes the read complete with 0 bytes at once, again and again at one virtual instant - simulation::run() never returns and no later client or timer runs' % (cap, used),
-                          'dominated by %s < %s' % (used, cap))
-    return n
-
-
 def check(run):
     fx = run.fx
     f = lambda n: fx.fn1(H + '::' + n)
@@ -306,8 +266,8 @@ def check(run):
     if nab < 6:
         run.broke('only %d completions bound by http_proxy found (on_read_request, on_domain_lookup, on_connected, on_server_write, on_server_receive, on_server_forward, on_error_sent)' % nab)
     run.clause('the proxy never spins on a full request buffer: a read into the remaining room is issued only when there is room')
-    if read_has_room_rule(run, [H + '::on_read_request']) < 1:
-        run.broke('on_read_request: no read into sizeof(buffer) - count found')
+    if engines.reads_never_empty(run, [g_ for g_ in fx.repo_functions() if g_.file.endswith('http_proxy.cpp')], inst='read-has-room') < 1:
+        run.broke('http_proxy.cpp: no read of a computed length found (on_read_request reads into sizeof(buffer) - count)')
     # every request that passes validation is queued for the origin, whatever the state of the connection
     okq = bool(mm) and q.on_all_paths(fr, [c for c in mm] + [n_ for n_ in fr.all_nodes() if n_['k'] == 'throw'])      # a rejected request leaves by throw
     run.check(okq, 'R4', 'request-always-queued', H + '::forward_request', fr.loc(),
